@@ -109,7 +109,8 @@ def gen_valid(rng, maxn):
             xref = [v * sx for v in xref]
             if fpx is not None:
                 fpx = [v * sx for v in fpx]
-    return {"x": [str(v) for v in x], "y": [str(v) for v in y], "xref": [str(v) for v in xref],
+    return {"argrep": S.pick_argrep(rng, 0.7),
+            "x": [str(v) for v in x], "y": [str(v) for v in y], "xref": [str(v) for v in xref],
             "yref": [str(v) for v in yref],
             "fpx": None if fpx is None else [str(v) for v in fpx], "fpi": fpi,
             "strategy": strategy, "target": rng.choice(RULES), "ref": rng.choice(RULES), "alpha": alpha,
@@ -154,7 +155,7 @@ def gen_interval(rng):
     k = len(F) - 1
     Is = [rng.dyadic() for _ in range(max(0, k + rng.choice([0, 0, 0, -1, 1])))]
     return {"kind": "interval", "x": [str(v) for v in x], "y": [str(v) for v in y], "F": F, "Is": [str(v) for v in Is],
-            "target": rng.choice(RULES), "alpha": rng.choice(ALPHAS_INT)}
+            "target": rng.choice(RULES), "alpha": rng.choice(ALPHAS_INT), "argrep": S.pick_argrep(rng, 0.7)}
 
 
 def gen_long(rng, matchref=False):
@@ -185,7 +186,76 @@ def gen_long(rng, matchref=False):
             "alpha": rng.choice(ALPHAS_INT), "kind": "valid", "long": True}
 
 
+WINDOW_SIZES = [4097, 8193, 12289, 16385, 24577, 32769, 49153, 65537]         # 2**k + 1 and 3 * 2**k + 1 samples
+
+
+def gen_long_window(rng, L=None):
+    """one very long interval between two fixed points (tens of thousands of samples), short neighbours on both sides"""
+    L = L or rng.choice(WINDOW_SIZES)
+    pre, post = rng.randint(2, 6), rng.randint(2, 6)
+    n = pre + L + post
+    x = [Fraction(i, 4) for i in range(n)] if rng.random() < 0.5 else rng.increasing(n)
+    y = [Fraction((i * 7919) % 17 - 8, 8) for i in range(n)]
+    F = [0, pre, pre + L - 1, n - 1]
+    return {"kind": "interval", "x": [str(v) for v in x], "y": [str(v) for v in y], "F": F,
+            "Is": [str(rng.dyadic()) for _ in range(3)], "target": rng.choice(RULES), "alpha": rng.choice(ALPHAS_INT),
+            "long": True, "layout": "contig,contig,contig", "hist": "none"}
+
+
+def gen_longrefs(rng):
+    """a long series matched against a long reference (tens of thousands of reference intervals, every second sample a
+    fixed point), ordinary values - and sometimes one reference value many orders of magnitude larger than the rest:
+    every interval's integral is a local quantity"""
+    return {"kind": "longrefs", "nref": rng.choice([16385, 16500, 20001]), "outlier": rng.random() < 0.6,
+            "y": [str(v) for v in rng.values(7)], "yref": [str(abs(v) + 1) for v in rng.values(5)], "x": ["0", "1"],
+            "target": rng.choice(RULES), "ref": rng.choice(RULES), "alpha": rng.choice(ALPHAS_INT),
+            "strategy": rng.choice(["closest", "lower", "higher"]), "layout": "contig,contig,contig", "hist": "none"}
+
+
+def run_longrefs(c):
+    from traffic_weaver.match import integral_matching_reference_stretch
+    m = c["nref"]
+    n = 2 * (m - 1) + 1
+    x = np.arange(n, dtype=float) * 0.5
+    y = np.resize(np.array(floats([Fraction(v) for v in c["y"]])), n)
+    xref = x[::2].copy()
+    yref = np.resize(np.array(floats([Fraction(v) for v in c["yref"]])), m)
+    if c["outlier"]:
+        yref[0] = 1e25
+    import warnings
+    try:
+        with warnings.catch_warnings():
+            warnings.simplefilter("ignore")
+            z = np.asarray(integral_matching_reference_stretch(x, y, xref, yref, fixed_points_finding_strategy=c["strategy"],
+                                                               target_function_integral_method=c["target"],
+                                                               reference_function_integral_method=c["ref"], alpha=c["alpha"]),
+                           dtype=float)
+    except Exception as e:  # noqa
+        return {"err": err_kind(e)}
+    if len(z) != n:
+        return {"bad": [[-1, float(len(z)), float(n)]], "n_bad": 1}
+    dx = 0.5
+    if c["target"] == "trapezoid":
+        got = (z[0:-2:2] + z[1:-1:2]) / 2 * dx + (z[1:-1:2] + z[2::2]) / 2 * dx
+        sc = (np.abs(z[0:-2:2]) + 2 * np.abs(z[1:-1:2]) + np.abs(z[2::2])) / 2 * dx
+    else:
+        got = z[0:-2:2] * dx + z[1:-1:2] * dx
+        sc = (np.abs(z[0:-2:2]) + np.abs(z[1:-1:2])) * dx
+    want = (yref[:-1] + yref[1:]) / 2 * 1.0 if c["ref"] == "trapezoid" else yref[:-1] * 1.0
+    scr = (np.abs(yref[:-1]) + np.abs(yref[1:])) / 2 if c["ref"] == "trapezoid" else np.abs(yref[:-1])
+    bad = np.nonzero(~(np.abs(got - want) <= 1e-8 * np.maximum(sc, scr)))[0]
+    return {"bad": [[int(k), float(got[k]), float(want[k])] for k in bad[:3]], "n_bad": int(len(bad)), "intervals": int(m - 1)}
+
+
 def cases(rng, tier):
+    for _ in range({"quick": 1, "thorough": 6}.get(tier, 1)):
+        yield gen_longrefs(rng)
+    if tier == "thorough":
+        for L in WINDOW_SIZES:
+            yield gen_long_window(rng, L)
+    elif tier == "quick":
+        yield gen_long_window(rng, 49153)
+        yield gen_long_window(rng)
     for i in range({"quick": 8, "thorough": 60}.get(tier, 3)):
         yield gen_long(rng, matchref=i % 2 == 1)
     for _ in range({"quick": 150, "thorough": 2000}.get(tier, 100)):
@@ -246,6 +316,8 @@ def pw_points(c):
 
 
 def request(c):
+    if c["kind"] == "longrefs":
+        return []
     if c["kind"] == "interval":
         x = [Fraction(v) for v in c["x"]]
         y = [Fraction(v) for v in c["y"]]
@@ -261,6 +333,8 @@ def request(c):
 
 def run_impl(c):
     from traffic_weaver.match import integral_matching_reference_stretch
+    if c["kind"] == "longrefs":
+        return run_longrefs(c)
     if c["kind"] == "interval":
         from traffic_weaver.match import _interval_integral_matching_stretch
         x = [Fraction(v) for v in c["x"]]
@@ -268,12 +342,14 @@ def run_impl(c):
         try:
             r = _interval_integral_matching_stretch(S.arr(floats(x)), S.arr(floats(y)),
                                                     integral_values=[float(Fraction(v)) for v in c["Is"]],
-                                                    fixed_points_indices_in_x=np.array(c["F"]), integral_method=c["target"],
+                                                    fixed_points_indices_in_x=np.array(c["F"]),
+                                                    integral_method=S.text(c["target"], c.get("argrep", "plain")),
                                                     alpha=c["alpha"])
             return {"ok": [float(v) for v in r], "type": type(r).__name__}
         except Exception as e:  # noqa
             return {"err": err_kind(e)}
     x, y, xref, yref = vals(c)
+    rep = c.get("argrep", "plain")     # names as the literals or as equal strings that are not the interned literals
     kw = {}
     if c["fpx"] is not None:
         kw["fixed_points_in_x"] = [float(Fraction(v)) for v in c["fpx"]]
@@ -285,14 +361,16 @@ def run_impl(c):
             warnings.simplefilter("ignore")
             r = integral_matching_reference_stretch(
                 S.arr(floats(x)), S.arr(floats(y)), S.arr(floats(xref)), S.arr(floats(yref)),
-                fixed_points_finding_strategy=c["strategy"], target_function_integral_method=c["target"],
-                reference_function_integral_method=c["ref"], alpha=c["alpha"], **kw)
+                fixed_points_finding_strategy=S.text(c["strategy"], rep), target_function_integral_method=S.text(c["target"], rep),
+                reference_function_integral_method=S.text(c["ref"], rep), alpha=c["alpha"], **kw)
         return {"ok": [float(v) for v in r], "type": type(r).__name__}
     except Exception as e:  # noqa
         return {"err": err_kind(e)}
 
 
 def compare(c, io, mo):
+    if c["kind"] == "longrefs":
+        return None
     m = mo[0]
     if "err" in io:
         return None if m == f"ERR {io['err']}" else f"impl raised {io['err']}, model says {m}"
@@ -340,6 +418,15 @@ def preconditions(c):
 
 
 def oracle(c, io):
+    if c["kind"] == "longrefs":
+        if "err" in io:
+            return f"valid matching request raised {io['err']}"
+        if io["n_bad"]:
+            k, got, want = io["bad"][0]
+            return (f"long reference ({c['nref']} positions{', one value of 1e25' if c['outlier'] else ''}): interval {k}: "
+                    f"{c['target']} integral of the result is {got!r}, {c['ref']} integral of the reference is {want!r} "
+                    f"({io['n_bad']} of {io.get('intervals')} intervals)")
+        return None
     if c["kind"] == "interval":
         if "err" in io:
             return None if not c["Is"] else f"interval matching raised {io['err']}"
@@ -384,6 +471,8 @@ def oracle(c, io):
 
 
 def tags(c, io, mo):
+    if c["kind"] == "longrefs":
+        return ["kind=longrefs", "outlier" if c["outlier"] else "ordinary"]
     if c["kind"] == "interval":
         return ["kind=interval", f"rules={c['target']}", f"alpha={c['alpha']}"]
     mode = "indices" if c["fpi"] is not None else ("values" if c["fpx"] is not None else "default")
@@ -397,6 +486,8 @@ def tags(c, io, mo):
 
 
 def nontrivial_key(c, io, mo):
+    if c["kind"] == "longrefs":
+        return c if "err" not in io else None
     pre = preconditions(c)
     if pre is None or "err" in io:
         return None
